@@ -6,7 +6,7 @@
    The generic theorems hold for ANY width function w with the stated bounds;
    the _wcwidth versions instantiate w with the table-driven OfRune. *)
 From verif Require Import lib.Base lib.Utf8 gen.Tables model.C34_width model.C34
-  proofs.C34_proofs proofs.C34_builder proofs.C34_search proofs.C34_inst.
+  proofs.C34_proofs proofs.C34_builder proofs.C34_search proofs.C34_utf8 proofs.C34_utf8b proofs.C34_inst.
 Open Scope Z_scope.
 
 (* the generated combiningRanges table is strictly increasing, disjoint and
@@ -75,6 +75,35 @@ Theorem C34_force_exact_width_wcwidth : forall s n, 0 <= n ->
   /\ force_bytes s n = bytes_of (force_chunks of_rune (chunks s) n).
 Proof. exact force_exact_width_wcwidth. Qed.
 Print Assumptions C34_force_exact_width_wcwidth.
+
+(* Locality of utf8.DecodeRune: cutting a string at or after the end of its first
+   character, and appending nothing or something that starts with ASCII, does
+   not change the first character *)
+Theorem C34_decode_stable : forall s r k m t,
+  decode_rune s = (r, k) -> (1 <= k)%nat -> (k <= m)%nat -> ascii_or_nil t ->
+  decode_rune (firstn m s ++ t) = (r, k).
+Proof. exact decode_stable. Qed.
+Print Assumptions C34_decode_stable.
+
+(* hence, on the returned Go strings themselves (what wcwidth.Of reports for
+   them): Trim's result fits, Force's result is exactly n wide *)
+Theorem C34_trim_fits_bytes : forall (w : N -> Z), (forall r, 0 <= w r) ->
+  forall s n, 0 <= n -> of_bytes_w w (trim_bytes_w w s n) <= n.
+Proof. exact trim_bytes_fits. Qed.
+Print Assumptions C34_trim_fits_bytes.
+
+Theorem C34_force_exact_width_bytes : forall (w : N -> Z), (forall r, 0 <= w r) ->
+  forall s n, w 32%N = 1 -> 0 <= n -> of_bytes_w w (force_bytes_w w s n) = n.
+Proof. exact force_bytes_exact. Qed.
+Print Assumptions C34_force_exact_width_bytes.
+
+Theorem C34_trim_fits_wcwidth : forall s n, 0 <= n -> of_bytes (trim_bytes s n) <= n.
+Proof. exact trim_fits_wcwidth. Qed.
+Print Assumptions C34_trim_fits_wcwidth.
+
+Theorem C34_force_exact_wcwidth : forall s n, 0 <= n -> of_bytes (force_bytes s n) = n.
+Proof. exact force_exact_wcwidth. Qed.
+Print Assumptions C34_force_exact_wcwidth.
 
 (* The buffer builder: for every w with 0 <= w <= 2, w(space) = 1 and ^X cells
    at most 2 wide, WriteRuneSGR keeps the invariant "every line fits the width,
